@@ -31,8 +31,10 @@ func (k Keeper) GetBorrowAPRByAssetID(ctx sdk.Context, poolID, assetID uint64, I
 		return sdk.ZeroDec(), err
 	}
 	// for normal borrow
+	// at the kink (U == UOptimal) both branches give base + slope1; taking the first one there keeps
+	// 1 - UOptimal out of the denominator when UOptimal == 1 (second branch then needs U > 1, impossible)
 	if !IsStableBorrow {
-		if currentUtilisationRatio.LT(assetRatesStats.UOptimal) {
+		if currentUtilisationRatio.LTE(assetRatesStats.UOptimal) {
 			utilisationRatio := currentUtilisationRatio.Quo(assetRatesStats.UOptimal)
 			multiplicationFactor := utilisationRatio.Mul(assetRatesStats.Slope1)
 			borrowAPY = assetRatesStats.Base.Add(multiplicationFactor)
@@ -45,7 +47,7 @@ func (k Keeper) GetBorrowAPRByAssetID(ctx sdk.Context, poolID, assetID uint64, I
 		borrowAPY = assetRatesStats.Base.Add(assetRatesStats.Slope1).Add(multiplicationFactor)
 		return borrowAPY, nil
 	} // for stable borrow
-	if currentUtilisationRatio.LT(assetRatesStats.UOptimal) {
+	if currentUtilisationRatio.LTE(assetRatesStats.UOptimal) {
 		utilisationRatio := currentUtilisationRatio.Quo(assetRatesStats.UOptimal)
 		multiplicationFactor := utilisationRatio.Mul(assetRatesStats.StableSlope1)
 		borrowAPY = assetRatesStats.StableBase.Add(multiplicationFactor)
